@@ -46,6 +46,35 @@ namespace cv = covfie::vector;
 """
 
 
+ROUTES = ("direct", "conv", "pack", "pack_owning", "copy", "assign", "move")
+
+
+def construct(route, layer, pargs, cfg, tag):
+    """C++ that declares `o`, an owning_data_t of layer<vprobe<pargs>>, built along one construction route from the
+    configuration expression `cfg` (may mention B for the layer type) and the probe tag.  A layer's lookup contract is
+    checked once per route: a member that only some constructors set (a cached flag, a derived bound) shows as a
+    contract violation on the routes that forget it."""
+    pre = "using P = verif::vprobe<%s>; using B = %s<P>;\n" % (pargs, layer)
+    direct = "B::owning_data_t %%s(%s, P::owning_data_t(P::configuration_t{%s}));\n" % (cfg, tag)
+    if route == "direct":
+        return pre + direct % "o"
+    if route == "conv":
+        return ("using P2 = verif::vprobe2<%s>; using B2 = %s<P2>;\n" % (pargs, layer)
+                + "B2::owning_data_t o0(%s, P2::owning_data_t(P2::configuration_t{%s}));\n" % (cfg.replace("B::", "B2::"), tag)
+                + pre + "B::owning_data_t o(o0);\n")
+    if route == "pack":
+        return pre + "B::owning_data_t o(covfie::make_parameter_pack(B::configuration_t(%s), P::configuration_t{%s}));\n" % (cfg, tag)
+    if route == "pack_owning":
+        return pre + direct % "o1" + "B::owning_data_t o(covfie::make_parameter_pack(std::move(o1)));\n"
+    if route == "copy":
+        return pre + direct % "o1" + "B::owning_data_t o(o1);\n"
+    if route == "assign":
+        return pre + direct % "o1" + "B::owning_data_t o; o = o1;\n"
+    if route == "move":
+        return pre + direct % "o1" + "B::owning_data_t o(std::move(o1));\n"
+    raise KeyError(route)
+
+
 GLOBAL_EXTRA = []      # extra compiler flags for every build (used to re-run universes over mimic probes)
 
 
